@@ -20,6 +20,10 @@ The arithmetic of struct / int.from_bytes themselves is a trusted table.
 
 Round 4: (R9-byte-order-single-source) the byte-order spelling is read only by Int.__init__ /
 _compile; (R1-generated-int-codec) generated code decodes / encodes integers through struct only.
+
+Round 5: (g) the pack drivers convert every encode failure (no narrower handler before the
+catch-all); (h) a field handed out by a selector is compiled alike on both sides; (i) the cookie
+covers the generated text (byte-order prefix).
 """
 import ast
 
